@@ -8,4 +8,3 @@ cd /verif && rm -f replays/$ID-quick-1.$h.*; VERIF_REPO=/tmp/sv-$ID/repo ./check
 grep -h "^# class" replays/$ID-quick-1.$h.case 2>/dev/null | cut -c1-260 | head -4
 head -12 replays/$ID-quick-1.$h.broken.txt 2>/dev/null
 rm -rf /tmp/sv-$ID
-cd /verif && git checkout -- lean/IpcHub/Gen 2>/dev/null
